@@ -24,6 +24,8 @@ QsAlgs == {"qs", "mpqs", "siqs"}
 Generic == {"prime", "p2", "pk", "pq", "pq13", "closepq", "p2q", "p2q2", "pqr",
             "smallpq",      \* 5..8 primes < 200 times pq
             "fbcollide",    \* one prime factor in 200..2000 times pq
+            "p3q",          \* p^3 * q with p a prime in 200..1000 (inside every factor base): the sieve's divisors
+                            \* split p^3 unevenly and the divisor-combination loop meets factors it cannot split
             "twotiny"}      \* 2..3 distinct primes in 211..400 (just above trial division, p-1 very smooth: caught
                             \* together at the same gcd step of P-1 / ECM stage 1) times one large prime
 \* special values (no bit-length dimension of their own: bits is the exponent / size where it applies)
@@ -89,7 +91,9 @@ EdgeAlgs == {"auto", "rho", "squfof", "qs64", "ecm128", "qs", "mpqs", "siqs"}
 EdgeSet ==
   {Rec(sh, b, a, NoPref) : sh \in {"pq", "pq13"}, b \in 16..64, a \in EdgeAlgs}
   \cup {Rec(sh, b, a, NoPref) : sh \in {"pq", "pq13"}, b \in {65, 68, 72, 76, 80, 85, 90, 95, 100}, a \in {"auto", "qs", "mpqs", "siqs"}}
-  \cup {Rec("pq13", b, "auto", NoPref) : b \in {105, 110, 115, 120, 125, 130}}
+  \cup {Rec("pq13", b, "auto", NoPref) : b \in {105, 110, 115, 120, 125, 126, 127, 128, 129, 130}}
+  \* the 128-bit ECM up to its own word boundary (a 1:2 split keeps the smaller factor within reach of ECM)
+  \cup {Rec("pq13", b, "ecm128", NoPref) : b \in {65, 96, 112, 120, 126, 127, 128}}
 \* near the size limit: q * P with q - 1 smooth (found at once by P-1 / ECM) so that the call finishes;
 \* classical QS above its 400-bit guard and MPQS above its 448-bit guard; above 512 bits ("oversize")
 LimitSet ==
